@@ -111,3 +111,71 @@ def run(run, P):
         run.instance('R-BODY-COMPLETE', '%s: %d delivery statement(s), More bit in %d descriptor(s)%s' % (name, len(delivers), len(mvars), '' if hasflag else ' (no %s test at all)' % FLAG))
         solve(f, Env(), on_event, None, keys, R, key_fn=lambda e: (e.ts.get('last_seen'), tuple(e.intf(m)[:2] for m in sorted(mvars)), tuple(e.intf(o)[:2] for o in sorted(optvars))), on_branch=on_branch)
     run.require(n >= 1 or run.fixture_mode or run.cfg != 'base', 'R-BODY-COMPLETE: no function that hands a reassembled body to the application found')
+
+
+def run_token_restore(run, P):
+    """R-BODY-COMPLETE (application token): while a large transfer runs, the client's requests for further blocks carry tokens the library
+    made up; the transfer record (lg_crcv) remembers the application's own token.  When a response handler expires that record and hands the
+    response to the application (`coap_block_delete_lg_crcv()` followed by `return 0` = "call the application handler"), the path has put
+    the application's token back into the RECEIVED PDU -- coap_update_token(rcvd, ..) -- or has compared rcvd's token with the record's
+    app_token (and found nothing to do).  Otherwise the application's response handler sees a token it never chose."""
+    run.rule('R-BODY-COMPLETE')
+    n = 0
+    for f in sorted(P.lib_funcs(), key=lambda f: f['name']):
+        rc = [p for p in f['params'] if p.get('p') and not p.get('pc') and p.get('prec') == 'coap_pdu_t' and p.get('n') == 'rcvd']
+        if not rc:
+            continue
+        rv = 'v%d' % rc[0]['id']
+        expires = [ev for b, ev in P.events(f) if ev['e'].get('k') == 'call' and ev['e'].get('fn') == 'coap_block_delete_lg_crcv']
+        rets0 = [ev for b, ev in P.events(f) if ev['e'].get('k') == 'ret' and ev['e'].get('e') is not None and const_int(ev['e']['e']) == 0]
+        if not expires or not rets0:
+            continue
+        name = f['name']
+        n += 1
+        run.instance('R-BODY-COMPLETE', '%s: the application token is back in rcvd when the record is expired and the response handed up' % name)
+
+        def restores(t):
+            return t.get('k') == 'call' and t.get('fn') == 'coap_update_token' and t.get('a') and ap(t['a'][0]) == rv
+
+        def compares(c):
+            tok = any(isinstance(x, dict) and x.get('k') == 'mem' and x.get('f') == 'actual_token' and ap(x.get('b')) == rv for x in walk(c))
+            app = any(isinstance(x, dict) and x.get('k') == 'mem' and x.get('f') == 'app_token' for x in walk(c))
+            return tok and app
+
+        def is_rule_event(ev):
+            return restores(ev['e']) or any(ev is x for x in expires) or any(ev is r for r in rets0)
+        keys, R = relevance(f, is_rule_event)
+        keys = set(keys)
+        for b in f['blocks']:
+            c = (b.get('term') or {}).get('cond')
+            if c is not None and compares(c):
+                keys.add(b['id'])
+
+        def on_branch(b, s, env, ctx):
+            c = (b.get('term') or {}).get('cond')
+            if c is not None and compares(c) and not env.ts.get('tok'):
+                e = env.copy()
+                e.ts['tok'] = 1
+                return e
+            return env
+
+        def on_event(ev, env, ctx):
+            t = ev['e']
+            if restores(t) and not env.ts.get('tok'):
+                e = apply_generic(ev, env, R).copy()
+                e.ts['tok'] = 1
+                return [e]
+            if any(ev is x for x in expires):
+                e = apply_generic(ev, env, R).copy()
+                e.ts['expired'] = ev['loc']
+                return [e]
+            if any(ev is r for r in rets0) and env.ts.get('expired'):
+                ok = bool(env.ts.get('tok'))
+                run.oblige('R-BODY-COMPLETE', ok, '%s:token-restored-before-handing-up' % name)
+                if not ok:
+                    run.violation('R-BODY-COMPLETE', name, env.ts['expired'], 'record-expired-without-restoring-token',
+                                  'the transfer record is expired and the response is handed to the application (return 0) on a path that neither put the application\'s token '
+                                  'back into the received PDU nor compared the two tokens: the response handler sees the token the library made up for a later block', ctx.path())
+            return None
+        solve(f, Env(), on_event, None, keys, R, key_fn=lambda e: (e.ts.get('tok'), bool(e.ts.get('expired'))), on_branch=on_branch)
+    run.require(n >= 1 or run.fixture_mode or run.cfg != 'base', 'R-BODY-COMPLETE(application token): no response handler that expires a transfer record found')
